@@ -486,7 +486,8 @@ class ExprMixin:
             return
         if a.ty is T.STR or b.ty is T.STR:
             if isinstance(op, ast.Add):
-                a2, b2 = self.coerce(a, T.STR, n), self.coerce(b, T.STR, n)
+                a2 = a if a.ty is T.STR else (self.to_str(a, n) if isinstance(a.ty, (T.Atom, T.ObjT)) else self.coerce(a, T.STR, n))
+                b2 = b if b.ty is T.STR else (self.to_str(b, n) if isinstance(b.ty, (T.Atom, T.ObjT)) else self.coerce(b, T.STR, n))
                 yield st, V(T.STR, self.concat([a2.z, b2.z]))
                 return
             if isinstance(op, ast.Mult):
